@@ -68,7 +68,7 @@ def run_part(prop, tier, res, findings, work, map_ops, edit_ops, relevant, plans
         rv = G.rand_edit_vectors(edit_ops, sz["rand"], common.SEED)
         events += G.replay(rv, [("ms", "ascii")], len(events))
         # reference timestamps exactly maxDifference apart are decided exactly only on the dyadic grid
-        events += G.replay([v for v in rv if v["op"] == "alignTg"], [("dy", "ascii")], len(events))
+        events += G.replay([v for v in rv if v["op"] == "alignTg"], [("dy", "ascii"), ("far", "ascii")], len(events))
     if map_ops:
         events += G.map_histories(sz["hist"], common.SEED, len(events))
         # spec -> code along behaviours: random walks of the TLC model (full bounds) replayed on live Textgrid objects
